@@ -154,11 +154,12 @@ func funcSubStrVec(chunk []KVPair, args []Expression, ctx *ExecuteCtx) ([]any, e
 		start := int(toInt(starts[i], 0))
 		length := int(toInt(lengths[i], 0))
 		vlen := len(val)
-		if start > vlen-1 {
+		// the third argument is the end position (exclusive), not a length
+		end := min(length, vlen)
+		if start < 0 || start >= end {
 			values[i] = ""
 		} else {
-			length = min(length, vlen-start)
-			values[i] = val[start:length]
+			values[i] = val[start:end]
 		}
 	}
 	return values, nil
